@@ -117,13 +117,13 @@ CHECKS = {
         note='Trusted: oracle/bls.py; library pairing as instrument for the always-on comparison.',
         ref='DESIGN.md section 3 C16'),
     'C17': dict(
-        technique='ASan+UBSan on the workloads of all other properties, valgrind memcheck on the production build (uninitialised-value use; assembly routines), hostile-buffer workload through the Go-binding protocol under ASan+UBSan and flush against PROT_NONE guard pages, libFuzzer in the thorough tier',
+        technique='ASan+UBSan on the workloads of all other properties, valgrind memcheck on the production build (uninitialised-value use; assembly routines), MemorySanitizer builds of the portable code, hostile-buffer workload through the Go-binding protocol under ASan+UBSan and flush against PROT_NONE guard pages, libFuzzer in the thorough tier',
         text='(1) the workloads of C01-C16 and C18 are re-run under clang ASan+UBSan (thorough: also 32-bit-word and gcc builds), any report or crash is a violation keyed by report kind and '
              'source location; (2) valid buffers of every object kind and their hostile neighbourhood (truncations, extensions, first byte 0/1/2/255, bit flips, element garbage, random '
              'bytes up to 4 KiB) go through set_length -> exact-size allocation -> unmarshal -> marshal, under sanitizers and, on the production build, flush against guard pages at '
              'either end; length discovery is compared with an independent statement of the format; (3) field/group/pairing operations on operands flush against guard pages because '
              'the assembly is invisible to ASan; (4) thorough: 400k libFuzzer executions of the same protocol; (5) valgrind memcheck over the production build (-Ofast + assembly) on a bounded '
-             'sample of every workload of C01-C17: use of uninitialised values and invalid accesses, also inside the assembly routines. Hostile buffers include identity encodings substituted '
+             'sample of every workload of C01-C17: use of uninitialised values and invalid accesses, also inside the assembly routines; (6) MemorySanitizer builds of the portable code (64-bit words, thorough also 32-bit) on a ten times larger sample of the workloads of C01-C16 - sound here because no C++ runtime library is linked. Hostile buffers include identity encodings substituted '
              'for every embedded point and every byte alignment of the buffer.',
         note='A clean sanitizer run is not memory safety: red-zone tools miss intra-object and far overruns (C06 guard words and the C08 cursor monitor cover the two fixed-size internal buffers). '
              'The Go bindings are not executed (no toolchain); their allocation protocol is reproduced in C.',
@@ -159,7 +159,7 @@ CHECKS = {
              'executable back end; each answer (bytes and carry/borrow/shift-out) must equal Python integer arithmetic and all back ends must be byte-identical. Vectors are constructed: '
              'carry/borrow chains through every limb, sums on/around q with equal top word, reduction inputs T=v*2^384-m*q with prescribed pre-subtraction value (every arm of the asm '
              'tails, v=q exactly, intermediate meta-carries), all-ones squares. The AArch64 routines must execute every instruction at least once. Tower, group-law and '
-             'scalar-multiplication workloads are additionally diffed across prod/x86-baseline/portable-64/portable-32.',
+             'scalar-multiplication workloads are additionally diffed across prod/x86-baseline/portable-64/portable-32 and the portable code at clang -O0 and g++ -O2 (thorough: also 32-bit -O0 and g++ -O0).',
         note='AArch64 runs under oracle/a64.py on the llvm-mc object, ARMv6-M under oracle/thumb.py on the source text (it cannot be assembled here: pre-UAL syntax); neither is silicon. The one encoding that is ambiguous without the assembler (low-register MOV) is run under all three readings and must not matter.',
         ref='DESIGN.md section 3 C03'),
 }
@@ -169,14 +169,15 @@ NOT_YET = 'check not built yet in this round (planned, see DESIGN.md section 3)'
 
 # additions of the build-on session (see DESIGN.md sections 9.7-9.12), appended to the level texts
 EXTRA = {
+    'C04': ' The workload also runs on the portable code compiled without optimisation (clang -O0; thorough also 32-bit -O0, g++ -O2/-O0): latent undefined behaviour that optimised builds tolerate shows as a value difference.',
     'C01': ' Points are also handed over as Jacobian representatives with chosen z (1, -1, random and structured values such as 1+tu, u, the value whose limbs read 1), converted by the library and paired through all three entry points.',
     'C02': ' Products whose word-serial Montgomery reduction hits an exact carry coincidence (T[i+n]+carry in {2^w-2..2^w+1}, with/without pending meta-carry, every round, w = 64 and 32) are constructed by lib/redcsolve.py; operands made of extreme words; the baseline x86 routine family runs in the quick tier.',
     'C03': ' Reduction inputs and products with exact carry coincidences (lib/redcsolve.py) and special-word operands run on every back end; the tower, group-law, scalar-multiplication, pairing, GT, encoding, hashing, WKD-IBE and LQ-IBE workloads are diffed across prod / baseline x86 / portable-64 / portable-32 in the quick tier; the AArch64 and Thumb-1 interpreters cover the integer subset a rewrite plausibly uses (csel family, branches, shifts), so a rewritten routine is judged rather than declared uncovered.',
     'C05': ' Representatives include structured z values (-1, 2, 1/2, R, 2^64, 1+tu, 1+-u, u, tu, t, t+u, the value whose limbs read 1) through every operation and relation; output objects start as junk / a normalised point / the identity / another z by turns.',
-    'C07': ' Directed digit vectors (all zero, single digit) and sampler streams whose accepted draw is y = 0 or whose first draw per digit is exactly |x|, |x|-1, |x|+1, 2^64-1 or whose candidate is exactly r-1, r, r+1.',
+    'C07': ' Directed digit vectors (all zero, single digit) and sampler streams whose accepted draw is y = 0 or whose first draw per digit is exactly |x|, |x|-1, |x|+1, 2^64-1 or whose candidate is exactly r-1, r, r+1. Exponents written digit by digit in base |x| with digits structured in their 32-bit halves (zero low / high half, 2^32, 2^32-1, zero digits).',
     'C08': ' Lists of 31..65 and 255..257 (thorough ..300) affine pairs, prepared pairs and both; one prepared object prepared from a related point (same, negated, endomorphism images, identity) and then from Q must equal a fresh one. Pairs may point at their predecessor\'s G2 object (every sharing pattern over short lists with identity members).',
     'C09': ' Destinations start dirty but valid (zero / identity flag with arbitrary coordinates / another point); twist points whose y has a zero component exercise the second arm of the sort rule; points of isomorphic curves exercise the curve test separately from the subgroup test. Identity encodings with padding that is neutral for a word-wise accumulator (lanes cancelling under + or xor).',
-    'C10': ' Draws exactly equal to the modulus and its neighbours for every sampler; cofactor-torsion abscissas; consecutive identity derivations from related hashes (shared prefixes / suffixes). Exact small-order (13, 23, ...) torsion points of the twist and the curve as sampler candidates.',
+    'C10': ' Draws exactly equal to the modulus and its neighbours for every sampler; cofactor-torsion abscissas; consecutive identity derivations from related hashes (shared prefixes / suffixes). Exact small-order (13, 23, ...) torsion points of the twist and the curve as sampler candidates. Hash inputs whose x^3+b lies in Fq (residue / non-residue) or is purely imaginary, into dirty destinations.',
     'C11': ' Slot counts 33, 65, 257 (thorough also 130); hidden entries carry hostile id bits; fresh output keys start dirty (foreign valid points, wrong slot count, opposite signature flag, or 0xA5); directed adjustments that only toggle the omit-from-keys flag. Adjustments between same-layout lists, with omit-all toggles, ids that are near misses of each other (wkd.near: one bit / one word / equal low or high halves), list arguments that are views of one array; 15% of the random-consuming operations start from rejection-forcing byte streams.',
     'C12': ' Ciphertext lists carry the omit-from-keys flag on value entries (it has no meaning there); documented adjustments that hide a fixed slot must stop the key from opening ciphertexts with that slot set. Negatives also use near-miss ids; adjustments that hide all remaining slots through the list-level flag precede the filling attempts; crafted random streams as in C11.',
     'C13': ' Hierarchies with and without signature support; verify lists with flagged value entries; every precomputed input arrives by one of three routes (direct / adjusted from another list / adjusted away and back). Perturbed messages and ids include near misses (partial-word equality); crafted random streams as in C11.',
